@@ -7,6 +7,7 @@ import AgeModel.Extracted.CallOrder
 import Proofs.GoTieDecrypt
 import Proofs.GoTiePrims
 import Props.C03
+import Proofs.GoTieWitnessA
 namespace AgeModel
 namespace Tie.C03
 
@@ -73,6 +74,15 @@ theorem code_decrypt_mac_gate (P : Prims) {ι : Type} (E : GoTie.DecryptEnv P ι
       exact ⟨hdr, rest, fk, hp, hi, hmac, by rw [hres, hk, hpl]⟩
     | error e =>
       cases e <;> simp [GoTie.decryptErr] at hres
+
+/-- **the assumption structures this file's theorems take are satisfiable** (for a lawful toy primitive suite
+    with the 16-byte tag, where they mention primitives): none of the theorems above is vacuous. The instances are in
+    `Proofs/GoTieWitnessA.lean` / `GoTieWitnessB.lean`. -/
+theorem assumptions_satisfiable :
+    Prims.toy16.Correct ∧ Prims.toy16.aead.NonceSep ∧ Prims.toy16.aead.T = 16 ∧
+    Nonempty (GoTie.DecryptEnv Prims.toy16 Identity) ∧
+    Nonempty (GoTie.MacEnv Prims.toy16 Bytes (Bytes × Bytes)) :=
+  ⟨Prims.toy16_correct, AEAD.toy16_nonceSep, rfl, ⟨GoTie.DecryptEnv.witness⟩, ⟨GoTie.MacEnv.witness⟩⟩
 
 end Tie.C03
 end AgeModel
